@@ -148,11 +148,25 @@ var targets = []*target{
 	{
 		rpc: "ListChildren", keyPath: "name", tagPath: "parent", itemsField: "children", tokenKind: "resource-name",
 		newInst: func(rng *vk.Rand) *inst {
-			model := parentpb.NewModel(resource.WithRNG(rng.Fork()))
+			// half of the instances are case-insensitive about child names (an id interceptor on the collection): the
+			// collection's key order then differs from the order of the names the listing is sorted and paged by
+			opts := []resource.Option{resource.WithRNG(rng.Fork())}
+			folded := rng.Bool()
+			seen := map[string]bool{}
+			if folded {
+				opts = append(opts, resource.WithIDInterceptor(strings.ToLower))
+			}
+			model := parentpb.NewModel(opts...)
 			srv := parentpb.NewModelServer(model)
 			cl := parentpb.WrapApi(srv)
 			return &inst{
 				add: func(id, tag string, k int) (string, error) {
+					if folded {
+						if seen[strings.ToLower(id)] {
+							return "", fmt.Errorf("a child whose name differs only in case exists already")
+						}
+						seen[strings.ToLower(id)] = true
+					}
 					if p, what := vk.Recover(func() { model.AddChild(&traits.Child{Name: id, Parent: tag}) }); p {
 						return "", fmt.Errorf("AddChild panicked: %s", what)
 					}
